@@ -5,6 +5,7 @@ from __future__ import annotations
 import itertools
 import random
 
+from .. import core
 from .. import harness as H
 from .. import monitors as M
 from ..ref import rfc6455 as R
@@ -131,6 +132,12 @@ def head_mutations(rng):
                 (f"redirect-{st.decode()}-idn-long-label", base + ("Location: ws://" + "\u00fc" * 70 + ".test/\r\n\r\n").encode()),
                 (f"redirect-{st.decode()}-idn-leading-dot", base + "Location: ws://.\u00fc.test/\r\n\r\n".encode()),
                 (f"redirect-{st.decode()}-idn-wss", base + "Location: wss://m\u00fcnchen..example.test/\r\n\r\n".encode())]
+    # hosts built to make a careless pattern backtrack: a long run of name characters, then one character that fits nowhere
+    base = b"HTTP/1.1 302 Moved\r\n"
+    for run_ in (b"w" * 48, b"gateway" + b"a" * 70, b"a-" * 30, b"a." * 30, b"1" * 60, b"a_" * 25, b"xn--" * 15):
+        for ch in (b"!", b"$", b"~", b"*", b"(", b",", b";", b"=", b"\\", b"^", b"|", b"\xff"):
+            out.append((f"redirect-302-long-run-{run_[:3].decode()}x{len(run_)}-then-{ch.hex()}", base + b"Location: ws://" + run_ + ch + b"/chat\r\n\r\n"))
+            out.append((f"redirect-302-long-run-{run_[:3].decode()}x{len(run_)}-then-{ch.hex()}-wss-port", base + b"Location: wss://" + run_ + ch + b":8443/\r\n\r\n"))
     # every single byte inside, before and after the host of a redirect target (NUL and other control characters, blanks, '%', '@',
     # '\\', 8-bit bytes): the name travels through the no_proxy matching and the resolver of the follow-up connection
     base = b"HTTP/1.1 302 Moved\r\n"
@@ -191,6 +198,9 @@ def run(res, tier, seed, shard, nshards):
         for ji, job in enumerate(jobs):
             if ji % nshards != shard:
                 continue
+            # CPU-time guard: a call that spins without consuming input (inside C code it cannot even be interrupted) gets the shard
+            # killed; the parent reports the case noted here as a cpu-spin violation
+            core.spin_guard("C17", tier, shard, f"{job[0]}/{job[1] if len(job) > 1 else ''}", {"job": [str(x)[:200] for x in job[:3]]})
             if job[0] == "H":
                 handshake_case(res, W, rng, job, ji)
             elif job[0] == "F":
@@ -205,8 +215,11 @@ def run(res, tier, seed, shard, nshards):
             if i % nshards == shard:
                 proxied_redirect_case(res, W, rng, i)
 
-    with H.ambient((seed, shard, "C17"), res, dims=("multithread", "tls", "dispatcher", "high_fd", "warn_error", "thread_hop", "truthy")):
-        H.in_sim(scen, watchdog=3000)
+    try:
+        with H.ambient((seed, shard, "C17"), res, dims=("multithread", "tls", "dispatcher", "high_fd", "warn_error", "thread_hop", "truthy")):
+            H.in_sim(scen, watchdog=3000)
+    finally:
+        core.spin_guard("C17", tier, shard, None, cpu_seconds=0)
     W.enableTrace(False)
 
 
